@@ -45,11 +45,11 @@ theorem finishFile_no_crash (cfg : Cfg) (file : APath) (contents : List Content)
   · intro h; cases h
   · rename_i reg _
     obtain ⟨⟨m, rd⟩, h1⟩ := resolveLoop_total reg (st.resolved, [])
-      (res.refs ++ (walkContents { file := showPath file, keys := cfg.keys, defaultDeriving := cfg.defaultDeriving } [] contents).refs)
+      (walkContents { file := showPath file, keys := cfg.keys, defaultDeriving := cfg.defaultDeriving } [] contents).refs
     rw [h1]
     simp only
     obtain ⟨cd, h2⟩ := checkUnits_total m
-      (res.units ++ (walkContents { file := showPath file, keys := cfg.keys, defaultDeriving := cfg.defaultDeriving } [] contents).units)
+      (walkContents { file := showPath file, keys := cfg.keys, defaultDeriving := cfg.defaultDeriving } [] contents).units
     rw [h2]
     intro h; cases h
 
@@ -61,11 +61,11 @@ theorem finishFile_not_outOfFuel (cfg : Cfg) (file : APath) (contents : List Con
   · intro h; cases h
   · rename_i reg _
     obtain ⟨⟨m, rd⟩, h1⟩ := resolveLoop_total reg (st.resolved, [])
-      (res.refs ++ (walkContents { file := showPath file, keys := cfg.keys, defaultDeriving := cfg.defaultDeriving } [] contents).refs)
+      (walkContents { file := showPath file, keys := cfg.keys, defaultDeriving := cfg.defaultDeriving } [] contents).refs
     rw [h1]
     simp only
     obtain ⟨cd, h2⟩ := checkUnits_total m
-      (res.units ++ (walkContents { file := showPath file, keys := cfg.keys, defaultDeriving := cfg.defaultDeriving } [] contents).units)
+      (walkContents { file := showPath file, keys := cfg.keys, defaultDeriving := cfg.defaultDeriving } [] contents).units
     rw [h2]
     intro h; cases h
 
